@@ -1,7 +1,7 @@
 SPECIFICATION Spec
 CONSTANT Part = "layout"
 CONSTANT NameIds = {1, 2, 3, 4, 5, 6, 7, 8, 9, 10}
-CONSTANT ValueClasses = {"short", "multiline", "tabs", "nested", "number", "bool", "null", "nonascii"}
+CONSTANT ValueClasses = {"short", "multiline", "tabs", "nested", "number", "bool", "null", "nonascii", "meta"}
 CONSTANT MaxExtra = 3
 CONSTANT TripleMode = "rot"
 CONSTANT MaxLines = 0
